@@ -40,7 +40,7 @@ PLANS: Dict[str, List[dict]] = {
         {"engine": _E1_PERSIST, "quick": 800, "thorough": 10000, "quick_wall_s": 60, "thorough_wall_s": 600},
     ],
     "C07": [{"engine": _E1_LAYOUT, "quick": 1800, "thorough": 30000, "quick_wall_s": 120, "thorough_wall_s": 1500}],
-    "C08": [{"engine": _E2_SHAPES, "quick": 1400, "thorough": 1400, "quick_wall_s": 150, "thorough_wall_s": 600}],
+    "C08": [{"engine": _E2_SHAPES, "quick": 1195, "thorough": 1195, "quick_wall_s": 150, "thorough_wall_s": 600}],
     "C09": [{"engine": _E7, "quick": 700, "thorough": 12000, "quick_wall_s": 120, "thorough_wall_s": 1500}],
     "C10": [{"engine": _E9_DET, "quick": 160, "thorough": 1500, "quick_wall_s": 120, "thorough_wall_s": 1200}],
     "C11": [{"engine": _E9_HOSTILE, "quick": 400, "thorough": 6000, "quick_wall_s": 120, "thorough_wall_s": 1200}],
